@@ -60,7 +60,13 @@ pub fn classify(m: &Model, input: &[u8], cap: usize, ctx: &mut Ctx) -> bool {
     if matches!(m.term, Terminal::Unspecified) {
         ctx.class("mixed-terminator-excluded (comparison stops at the out-of-domain group)");
     }
-    ctx.class(&format!("records: {}", match m.recs.len() { 0 => "0", 1 => "1", 2..=4 => "2-4", _ => "5+" }));
+    ctx.class(&format!("records: {}", match m.recs.len() { 0 => "0", 1 => "1", 2..=4 => "2-4", 5..=19 => "5-19", _ => "20+" }));
+    if input.len() > 10_000 {
+        ctx.class("input larger than 10 kB");
+    }
+    if cap >= 65536 {
+        ctx.class("capacity >= 64 KiB (the default)");
+    }
     has_content && (crosses || crlf || empty_seq || no_final || blank)
 }
 
@@ -68,10 +74,12 @@ impl Prop for ReadModel {
     type Case = Case;
     fn strategy(&self, _tier: Tier) -> BoxedStrategy<Case> {
         let f = self.0;
-        boxed(
-            (gen::input_and_cap(f, gen::any_input(f, false)), gen::policy_permissive(), gen::script(), mode3())
-                .prop_map(|((input, cap), policy, script, mode)| Case { input, cfg: Cfg { cap, policy, script }, mode }),
-        )
+        let small = (gen::input_and_cap(f, gen::any_input(f, false)), gen::policy_permissive(), gen::script(), mode3())
+            .prop_map(|((input, cap), policy, script, mode)| Case { input, cfg: Cfg { cap, policy, script }, mode });
+        // tens of kilobytes, hundreds of records, capacities up to the 64 KiB default and beyond
+        let big = (gen::big_input(f), gen::big_cap(), gen::policy_permissive(), prop_oneof![2 => Just(vec![]), 1 => Just(vec![4096u16]), 1 => Just(vec![1000u16, 7, 65535])], mode3())
+            .prop_map(|(input, cap, policy, chunks, mode)| Case { input, cfg: Cfg { cap, policy, script: Script { chunks, ..Default::default() } }, mode });
+        boxed(prop_oneof![30 => small, 1 => big])
     }
     fn check(&self, c: &Case, ctx: &mut Ctx) -> CheckResult {
         let m = Model::build(self.0, &c.input);
@@ -116,11 +124,15 @@ pub fn exhaustive(run: &mut Run, format: Format, alphabet: &'static [u8], max_le
         for cap in 3..=12usize {
             ctx.eval();
             let max = m.recs.len() + 6;
-            let r = read_all(format, &s, cap, PolKind::Std, &script, Mode::Next, max);
             if classify_light(&m, &s, cap) {
                 ctx.nontrivial(&(&s, cap), &json!({"input": crate::util::esc(&s), "cap": cap}));
             }
-            if let Err(f) = compare(&m, &r.outs, false) {
+            let verdict = crate::engine::guarded(|| {
+                let r = read_all(format, &s, cap, PolKind::Std, &script, Mode::Next, max);
+                crate::interp_livelock(&r.src, format)?;
+                compare(&m, &r.outs, false)
+            });
+            if let Err(f) = verdict {
                 let case = Case { input: B(s.clone()), cfg: Cfg { cap, policy: PolKind::Std, script: script.clone() }, mode: Mode::Next };
                 return Err((serde_json::to_value(&case).unwrap(), f));
             }
@@ -139,7 +151,7 @@ fn classify_light(m: &Model, input: &[u8], cap: usize) -> bool {
             || input.windows(2).any(|w| w == b"\n\n"))
 }
 
-pub const RULE: &str = "cases = (input from {grammar-built FASTA documents, 1-3 byte mutations of them, byte soups over a structural alphabet}) x (capacity absolute 3..300 or relative to record extents/offsets/input length) x permissive policy x chunk/interrupt script x {next, records(), into_records()}; thorough adds the complete small-scope enumeration. Non-trivial = (>=1 record or an invalid start) and (a record or the leading blank region crosses a buffer refill, or CRLF present, or empty sequence, or missing final terminator, or blank lines). Distinct = hash(input, capacity, chunk script).";
+pub const RULE: &str = "cases = (input from {grammar-built FASTA documents, 1-3 byte mutations of them, byte soups over a structural alphabet}) x (capacity absolute 3..300 or relative to record extents/offsets/input length) x permissive policy x chunk/interrupt script x {next, records(), into_records()}; thorough adds the complete small-scope enumeration; sub-check huge-records: a few documents with one record of 8-18 MiB (beyond the doubling threshold of the standard policy) read with the default and with tiny capacities. Non-trivial = (>=1 record or an invalid start) and (a record or the leading blank region crosses a buffer refill, or CRLF present, or empty sequence, or missing final terminator, or blank lines). Distinct = hash(input, capacity, chunk script).";
 
 pub const RULE_FQ: &str = "cases = (input from {grammar-built FASTQ documents with an optional defect (wrong start byte, wrong separator byte, length mismatch, truncation at any byte, dropped line) at a generated record index, 1-3 byte mutations, byte soups}) x (capacity absolute 3..300 or relative to record extents/offsets/input length) x permissive policy x chunk/interrupt script x {next, records(), into_records()}; thorough adds the complete small-scope enumeration. Groups mixing LF and CRLF between sequence and quality line are outside the claimed domain: the comparison stops there (class mixed-terminator-excluded). Non-trivial = (>=1 record or a format error) and (crosses a buffer refill, or CRLF, or missing final terminator, or blank lines). Distinct = hash(input, capacity, chunk script).";
 
@@ -149,6 +161,9 @@ pub fn run_c02(tier: Tier) -> i32 {
     run.replays("model-differential", &p);
     run.generated("model-differential", &p, tier.pick(120_000, 4_000_000));
     exhaustive(&mut run, Format::Fastq, b"@+\n\rA", if tier == Tier::Quick { 6 } else { 8 });
+    let h = super::huge::HugeModel(Format::Fastq);
+    run.replays("huge-records", &h);
+    run.generated("huge-records", &h, tier.pick(6, 60));
     run.finish(
         RULE_FQ,
         &[
@@ -159,7 +174,7 @@ pub fn run_c02(tier: Tier) -> i32 {
 }
 
 pub fn replay_c02(run: &mut Run, file: &std::path::Path) -> Option<bool> {
-    run.replay_file("model-differential", &ReadModel(Format::Fastq), file, true)
+    run.replay_file("model-differential", &ReadModel(Format::Fastq), file, true).or_else(|| run.replay_file("huge-records", &super::huge::HugeModel(Format::Fastq), file, true))
 }
 
 pub fn run(tier: Tier) -> i32 {
@@ -168,6 +183,9 @@ pub fn run(tier: Tier) -> i32 {
     run.replays("model-differential", &p);
     run.generated("model-differential", &p, tier.pick(120_000, 4_000_000));
     exhaustive(&mut run, Format::Fasta, b">\n\rA ", if tier == Tier::Quick { 6 } else { 9 });
+    let h = super::huge::HugeModel(Format::Fasta);
+    run.replays("huge-records", &h);
+    run.generated("huge-records", &h, tier.pick(6, 60));
     run.finish(
         RULE,
         &[
@@ -180,4 +198,5 @@ pub fn run(tier: Tier) -> i32 {
 pub fn replay(run: &mut Run, file: &std::path::Path) -> Option<bool> {
     run.replay_file("model-differential", &ReadModel(Format::Fasta), file, true)
         .or_else(|| run.replay_file("exhaustive-small-scope", &ReadModel(Format::Fasta), file, true))
+        .or_else(|| run.replay_file("huge-records", &super::huge::HugeModel(Format::Fasta), file, true))
 }
